@@ -305,7 +305,9 @@ def c03_episodes(case, rng, kp, inverse=True):
     if sorted(ts) != sorted(e_t) or any(not close(ts[m], e_t[m]) for m in e_t):
         return False, dict(what='row arrangement of the episodes changes the per-episode result',
                            X_sorted=Xs.tolist())
-    # causality: perturb every row of ONE episode that lies outside the window of its last sample
+    # causality: perturb every row of ONE episode that lies outside the window of its last sample; the window is
+    # the one the estimator itself declares (min_samples_)
+    w = int(kp.min_samples_)
     l = sorted(e_in)[int(rng.integers(0, len(e_in)))]
     idx = np.flatnonzero(X[:, 0] == l)
     if len(idx) > w:
